@@ -238,6 +238,140 @@ def write_script(ctx, k=3, maxlen=2, with_length=True):
             info.update(out=bytes(out).decode("latin1"), written=bytes(written).decode("latin1"))
     return f, ("chunked" if chunked else "plain") + (":eof" if eof else ":open"), info
 
+# ---- payload kinds: declared size vs bytes written --------------------------------------
+PAYLOAD_ALPHABET = ["a", "\n", "\u00e9", "\u20ac"]  # 1 byte; LF; 2 bytes in UTF-8 / 1 in Latin-1; 3 bytes in UTF-8
+PAYLOAD_KINDS = ("bytes", "string", "bytesio", "file", "textfile", "stringio", "asynciter", "json")
+
+
+class _RecWriter:
+    """minimal AbstractStreamWriter: records what the payload writes"""
+
+    def __init__(self):
+        self.chunks = []
+
+    async def write(self, chunk):
+        self.chunks.append(bytes(chunk))
+
+    async def write_eof(self, chunk=b""):
+        self.chunks.append(bytes(chunk))
+
+    async def drain(self):
+        pass
+
+
+def payload_size(ctx, kind="bytes", maxchars=3):
+    """solver-chosen content, start offset, encodings and content_length for one payload kind:
+    write() emits exactly the content, write_with_length(n) exactly its first n bytes, and the
+    declared size (when not None) is the number of bytes write() emits."""
+    import io
+    import os
+    import tempfile
+
+    from aiohttp import payload as P
+    from harness.vloop import VLoop, install
+
+    loop = install(VLoop())
+    n = ctx.choice("nchars", maxchars + 1)
+    text = "".join(ctx.pick(f"ch{i}", PAYLOAD_ALPHABET) for i in range(n))
+    cl = ctx.pick("content_length", [None, 0, 1, 2, 3, 4, 5, 7, 100])
+    enc = "utf-8"
+    start = 0
+    tmp = None
+    fobj = None
+    try:
+        if kind == "bytes":
+            data = text.encode()
+            pl = P.BytesPayload(data)
+        elif kind == "string":
+            enc = ctx.pick("encoding", ["utf-8", "latin-1", None])
+            if enc == "latin-1" and "\u20ac" in text:
+                ctx.assume(False)
+            pl = P.StringPayload(text, encoding=enc) if enc else P.StringPayload(text)
+            data = text.encode(enc or "utf-8")
+        elif kind == "bytesio":
+            raw = text.encode()
+            start = ctx.choice("start", len(raw) + 1)
+            fobj = io.BytesIO(raw)
+            fobj.seek(start)
+            pl = P.BytesIOPayload(fobj)
+            data = raw[start:]
+        elif kind == "file":
+            raw = text.encode()
+            start = ctx.choice("start", len(raw) + 1)
+            tmp = tempfile.NamedTemporaryFile(prefix="c04pl", delete=False)
+            tmp.write(raw)
+            tmp.close()
+            fobj = open(tmp.name, "rb")
+            fobj.seek(start)
+            pl = P.get_payload(fobj) if ctx.flag("via_registry") else P.BufferedReaderPayload(fobj)
+            data = raw[start:]
+        elif kind == "textfile":
+            enc = ctx.pick("encoding", ["utf-8", "latin-1"])
+            if enc == "latin-1" and "\u20ac" in text:
+                ctx.assume(False)
+            tmp = tempfile.NamedTemporaryFile(prefix="c04pl", delete=False)
+            tmp.write(text.encode(enc))
+            tmp.close()
+            fobj = open(tmp.name, "r", encoding=enc, newline="")
+            pl = P.TextIOPayload(fobj, encoding=enc)
+            data = text.encode(enc)
+        elif kind == "stringio":
+            fobj = io.StringIO(text)
+            pl = P.get_payload(fobj)
+            data = text.encode()
+        elif kind == "asynciter":
+            raw = text.encode()
+            cut = ctx.choice("piece_cut", len(raw) + 1)
+            pieces = [raw[:cut], raw[cut:]] if ctx.flag("two_pieces") else [raw]
+
+            async def gen():
+                for x in pieces:
+                    yield x
+
+            pl = P.AsyncIterablePayload(gen())
+            data = raw
+        else:  # json
+            pl = P.JsonPayload({"k": text})
+            import json as _json
+
+            data = _json.dumps({"k": text}).encode()
+        size = pl.size
+        w = _RecWriter()
+        use_plain_write = cl is None and ctx.flag("plain_write")
+
+        async def go():
+            if use_plain_write:
+                await pl.write(w)
+            else:
+                await pl.write_with_length(w, cl)
+
+        loop.run_until_complete(go())
+        out = b"".join(w.chunks)
+        want = data if cl is None else data[:cl]
+        key = None
+        if out != want:
+            key = ("payload-writes-more-than-content-length" if cl is not None and len(out) > cl
+                   else "payload-bytes-differ-from-content")
+        elif size is not None and size != len(data):
+            key = "payload-declared-size-differs-from-bytes-written"
+        tag = "payload:" + ("clamped" if cl is not None and cl < len(data) else "full")
+        if key:
+            return False, "inv:" + key, {"key": key + ":" + kind, "kind": kind, "text": text, "encoding": enc,
+                                         "start": start, "content_length": cl, "declared_size": size,
+                                         "written": out.decode("latin1"), "expected": want.decode("latin1")}
+        return True, tag, None
+    finally:
+        try:
+            if fobj is not None:
+                fobj.close()
+        except Exception:  # noqa: BLE001
+            pass
+        if tmp is not None:
+            try:
+                os.unlink(tmp.name)
+            except OSError:
+                pass
+
 
 def twin(ctx):
     f, tag, info = write_script(ctx, k=1, maxlen=1)
@@ -247,7 +381,7 @@ def twin(ctx):
 def lemmas(tier):
     import sys
 
-    sys.path.insert(0, "/repo")
+    sys.path.insert(0, __import__("os").environ.get("VERIF_REPO_ROOT", "/repo"))
     import z3
     from lemmas import regex_lemmas as L
     from aiohttp import client_reqrep as cr
@@ -283,14 +417,20 @@ def jobs(tier):
         out.append(dict(name=f"reason-{n}", func="set_status", params=dict(n=n), limits=lim))
     for k in ((2, 3) if quick else (2, 3, 4)):
         out.append(dict(name=f"script-{k}", func="write_script", params=dict(k=k, maxlen=2), limits=lim))
+    out.extend(_payload_jobs(tier, lim))
     return out
+
+
+def _payload_jobs(tier, lim):
+    return [dict(name=f"payload-size-{k}", func="payload_size", params=dict(kind=k, maxchars=2 if tier == "quick" else 3),
+                 limits=lim) for k in PAYLOAD_KINDS]
 
 
 def twins(tier):
     return [dict(name="twin", func="twin", params={}, limits={"time_limit": 30, "max_paths": 30})]
 
 
-REQUIRED_OUTCOMES = ("refused", "written", "chunked:eof", "plain:eof")
+REQUIRED_OUTCOMES = ("refused", "written", "chunked:eof", "plain:eof", "payload:clamped", "payload:full")
 
 
 def bounds(tier):
